@@ -116,7 +116,7 @@ func (vc *FuncVC) callFunctionC(st *State, fn *ssa.Function, c *ssa.CallCommon, 
 			return
 		}
 	}
-	vc.unknownCall(st, shortName(fn.String()), fn.Signature, pos, k)
+	vc.unknownCallArgs(st, shortName(fn.String()), fn.Signature, c, pos, k)
 }
 
 // inline executes the body of fn in a new frame.
@@ -147,16 +147,34 @@ func (vc *FuncVC) inline(st *State, fn *ssa.Function, bind []Value, args []Value
 	vc.execBlock(st, fn.Blocks[0], nil)
 }
 
-// unknownCall: no contract and no body — everything reachable may change, the result is arbitrary.
+// unknownCall: no contract and no body available. Assumption (listed in the evidence): a library function without
+// contract modifies only memory of the types its arguments point to (pointer-to-struct: the fields of that struct type;
+// slices: their elements; maps; boxed values by their static type). A function-typed argument or an interface whose
+// dynamic type is not known statically makes everything reachable havoc. The result is arbitrary.
 func (vc *FuncVC) unknownCall(st *State, what string, sig *types.Signature, pos token.Pos, k func(*State, Value)) {
-	vc.warn("call without contract: %s (%s): all heaps havocked", what, vc.pos(pos))
-	vc.trusted["unspecified:"+what] = true
-	for _, name := range sortedKeys(vc.heapSorts) {
-		if strings.HasPrefix(name, "iter.") {
-			continue
+	vc.unknownCallArgs(st, what, sig, nil, pos, k)
+}
+
+func (vc *FuncVC) unknownCallArgs(st *State, what string, sig *types.Signature, c *ssa.CallCommon, pos token.Pos, k func(*State, Value)) {
+	mods := map[string]bool{}
+	vc.argTypeMods(c, mods)
+	if mods["*"] {
+		vc.warn("call without contract: %s (%s): all heaps havocked", what, vc.pos(pos))
+		for _, name := range sortedKeys(vc.heapSorts) {
+			if strings.HasPrefix(name, "iter.") {
+				continue
+			}
+			st.setHeap(name, vc.fresh(st, "H."+name, vc.heapSorts[name]))
 		}
-		st.setHeap(name, vc.fresh(st, "H."+name, vc.heapSorts[name]))
+	} else {
+		vc.warn("call without contract: %s (%s): assumed to modify only memory of its argument types", what, vc.pos(pos))
+		for _, name := range sortedKeys(mods) {
+			if s, ok := vc.heapSorts[name]; ok {
+				st.setHeap(name, vc.fresh(st, "H."+name, s))
+			}
+		}
 	}
+	vc.trusted["unspecified:"+what] = true
 	vc.havocAlloc(st)
 	k(st, vc.freshResults(st, sig))
 }
@@ -637,4 +655,65 @@ func (vc *FuncVC) execAppend(st *State, c *ssa.CallCommon, args []Value, pos tok
 		st.setHeap(name, nh)
 	}
 	return res
+}
+
+// argTypeMods: heaps an unspecified library call may modify, by the types of its arguments (see unknownCall).
+func (vc *FuncVC) argTypeMods(c *ssa.CallCommon, mods map[string]bool) {
+	if c == nil || c.IsInvoke() {
+		mods["*"] = true
+		return
+	}
+	var walk func(t types.Type, depth int)
+	walk = func(t types.Type, depth int) {
+		switch u := t.Underlying().(type) {
+		case *types.Basic:
+		case *types.Pointer:
+			vc.leafHeaps(typeKey(u.Elem()), u.Elem(), mods)
+			if _, isStruct := u.Elem().Underlying().(*types.Struct); !isStruct {
+				mods["cell."+typeKey(u.Elem())] = true
+			}
+		case *types.Slice:
+			vc.leafHeaps("[]"+typeKey(u.Elem()), u.Elem(), mods)
+			if depth < 2 {
+				walk(u.Elem(), depth+1)
+			}
+		case *types.Map:
+			mods["map."+typeKey(t)] = true
+			mods["dom."+typeKey(t)] = true
+		case *types.Struct:
+			for i := 0; i < u.NumFields(); i++ {
+				if depth < 2 {
+					walk(u.Field(i).Type(), depth+1)
+				}
+			}
+		default:
+			mods["*"] = true
+		}
+	}
+	for _, a := range c.Args {
+		if mi, ok := a.(*ssa.MakeInterface); ok {
+			walk(mi.X.Type(), 0)
+			continue
+		}
+		if sl, ok := a.(*ssa.Slice); ok {
+			// variadic ...any: look through the varargs array for the boxed static types
+			if al, ok := sl.X.(*ssa.Alloc); ok && al.Comment == "varargs" && al.Referrers() != nil {
+				for _, ref := range *al.Referrers() {
+					if ia, ok := ref.(*ssa.IndexAddr); ok && ia.Referrers() != nil {
+						for _, r2 := range *ia.Referrers() {
+							if stq, ok := r2.(*ssa.Store); ok {
+								if mi, ok := stq.Val.(*ssa.MakeInterface); ok {
+									walk(mi.X.Type(), 0)
+								} else {
+									walk(stq.Val.Type(), 0)
+								}
+							}
+						}
+					}
+				}
+				continue
+			}
+		}
+		walk(a.Type(), 0)
+	}
 }
